@@ -312,6 +312,61 @@ func C14(run *core.Run) {
 		}
 		fdb.st.Close()
 	}
+	// large batches (the handler's default bulk size is 1000): a fault late in the batch leaves nothing behind
+	for _, size := range []int{600, 1100} {
+		var batch []*mocrelay.Event
+		var ins []any
+		for i := 0; i < size; i++ {
+			e := abs.Event{ID: fmt.Sprintf("big%d_%d", size, i), Author: "c", Kind: 1, TS: int64(1 + i%50)}
+			ce := conc.Event(e, "b")
+			inserted[ce.ID] = ce
+			batch = append(batch, ce)
+			ins = append(ins, map[string]any{"op": "ins", "e": e})
+		}
+		if err := mem.st.Reset(); err != nil {
+			run.Problem("reset: %v", err)
+			break
+		}
+		mem.inj.Arm(0)
+		if err := mem.st.Insert(batch); err != nil {
+			run.Violate("insert-error without fault (large batch)", err.Error(), nil)
+			break
+		}
+		total, _ := mem.inj.Disarm()
+		for _, failAt := range []int{total, total - 1, total / 2, 7 + size} {
+			mem.st.Reset()
+			seedEv := real["r1"]
+			mem.st.Insert([]*mocrelay.Event{seedEv})
+			tr := tv.Trace{Name: fmt.Sprintf("large batch of %d, fault at statement %d of %d", size, failAt, total)}
+			tr.Lines = append(tr.Lines, map[string]any{"op": "reset"}, map[string]any{"op": "begin"}, map[string]any{"op": "ins", "e": txUniverse["r1"]}, map[string]any{"op": "commit"})
+			tr.Lines = append(tr.Lines, map[string]any{"op": "begin"})
+			tr.Lines = append(tr.Lines, ins...)
+			mem.inj.Arm(failAt)
+			ierr := mem.st.Insert(batch)
+			_, log := mem.inj.Disarm()
+			run.Add("fault_runs", 1)
+			distinct.Add(fmt.Sprint("large", size, failAt))
+			if !mem.inj.Fired {
+				drift++
+				continue
+			}
+			if ierr == nil {
+				run.Violate("c14:fault swallowed (large batch) at "+log[len(log)-1], tr.Name, nil)
+			}
+			got, err := mem.st.Query(matchAll)
+			if err != nil {
+				run.Violate("query-error after failed large batch", err.Error(), nil)
+				continue
+			}
+			l := conc.Labels(got)
+			tr.Lines = append(tr.Lines, map[string]any{"op": "rollback"}, map[string]any{"op": "list", "res": l, "shape": fmt.Sprintf("list after a failed batch of %d events", size)})
+			if len(l) != 1 {
+				run.Violate(fmt.Sprintf("c14:failed large batch left %s events behind", map[bool]string{true: "some", false: "no"}[len(l) > 1]),
+					fmt.Sprintf("%s: %d events listed afterwards, 1 before", tr.Name, len(l)), nil)
+			}
+			traces = append(traces, tr)
+		}
+	}
 	// handler level: NewSQLiteHandler on a reopened file database keeps the seed
 	c14HandlerReopen(run, dir, conc, real)
 
